@@ -275,6 +275,16 @@ func H_C01_Pipeline() {
 		inv.Discounts = []*Discount{{Percent: &d, Taxes: tax.Set{{Category: "VAT", Percent: &p21}}}}
 		docKeep = 19
 	}
+	// optionally a supplied rounding adjustment and a fixed advance (both symbolic, at currency precision)
+	var rounding, advance int64
+	hasExtras := (nl == 1 || vrt.Thorough()) && vrt.Choice("extras", 2) == 1
+	if hasExtras {
+		rounding = vrt.Int64In("rounding", -500, 500)
+		advance = vrt.Int64In("advance", 1, 100000)
+		r := num.MakeAmount(rounding, 2)
+		inv.Totals = &Totals{Rounding: &r}
+		inv.Payment = &PaymentDetails{Advances: []*pay.Advance{{Description: "adv", Amount: num.MakeAmount(advance, 2)}}}
+	}
 	if err := calculate(inv); err != nil {
 		vrt.Assert(false, "calculates")
 		return
@@ -295,5 +305,11 @@ func H_C01_Pipeline() {
 	near(t.Total, exactTotal*100, "total")
 	near(t.Tax, exactTotal*21, "tax")
 	near(t.TotalWithTax, exactTotal*121, "total-with-tax")
-	near(t.Payable, exactTotal*121, "payable")
+	near(t.Payable, exactTotal*121+rounding*unit, "payable")
+	if hasExtras {
+		vrt.Assert(t.Due != nil, "due-present")
+		if t.Due != nil {
+			near(*t.Due, exactTotal*121+(rounding-advance)*unit, "due")
+		}
+	}
 }
